@@ -30,7 +30,7 @@ EXTRA = ["max", "name", "t", "column_names", "Column Names", "col__1", "a__0", "
          "a.b", "ａ", "sort_by", "Sort By", "c", "col", "col_", "x__1", "x", "X__1", "shape", "copy", "set_index", "a- b"]
 POOL = CORE + [n for n in EXTRA if n not in CORE]
 ALPHA = list("aAbz09_ -.!é٣１Kİǅ\n\ud800") + ["__", "col", "sum", "1_", "__1", "_1"]
-OBS = ["dir", "getattr", "row", "rowitem", "setitem", "getitem", "repr"]
+OBS = ["dir", "getattr", "row", "rowitem", "peek", "setitem", "getitem", "repr"]
 
 
 # --------------------------------------------------------------------------------------------
@@ -345,6 +345,16 @@ class _Run:
                 except Exception as e:
                     res = [[a, _err(e)] for a in adv_names]
                 obs.append({"k": "row", "res": res})
+            elif k == "peek":
+                # the summary table advertises an accessor per column as well (column 'attr', with a leading dot)
+                self.log.append("list(t.peek()['attr'])   # must be the accessors of dir(t), column by column")
+                try:
+                    pk = t.peek()
+                    lst = [str(x) for x in pk["attr"]] if "attr" in pk.column_names() else None
+                except Exception as e:
+                    lst = None
+                if lst is not None:
+                    obs.append({"k": "peek", "attr": lst})
             elif k == "rowitem":
                 # string keys of a row: an advertised accessor gives the cell of its own column (both spellings, t[0][a] and
                 # t[0, a]); a name no column answers to — in particular a method or property of the row object — is an error
